@@ -364,10 +364,14 @@ func calibrate(root string) {
 	}
 	defer kv.Close()
 	plan := genPlan(12345, 2, true)
-	plan[0].apply(kv)
 	t0 := time.Now()
+	plan[0].apply(kv)
+	bigImport := time.Since(t0)
+	t0 = time.Now()
 	plan[1].apply(kv)
 	bigCallDuration = time.Since(t0)
+	tun.thr["importN"] = float64(bigImport.Nanoseconds()) / float64(len(plan[0].items)) * 0.8
+	tun.thr["removeN"] = float64(bigCallDuration.Nanoseconds()) / float64(len(plan[1].keys)) * 0.8
 	// a small call (one key): starting point of the deadline thresholds
 	t0 = time.Now()
 	for i := 0; i < 40; i++ {
@@ -426,7 +430,7 @@ func childMain(args []string) {
 		res, _ := o.applyCtx(ctx, kv)
 		cancel()
 		if tune && res != "panic" {
-			tun.feedback(opClass(o), res != "error") // returned in time (whatever the result) / cut short
+			tun.feedback(o, res != "error") // returned in time (whatever the result) / cut short
 		}
 		switch {
 		case res != "error":
@@ -448,6 +452,7 @@ type line struct {
 	lhs, rhs string
 }
 type caseOut struct {
+	wall    time.Duration
 	lines   []line
 	buckets []string
 	key     string
@@ -812,15 +817,17 @@ func main() {
 
 	var jobs []func() caseOut
 	nseq, nops, ncrash := 24, 40, 30
-	ndl, ndlops := 16, 160
+	ndl, ndlops := 12, 150
+	nho, nhoops := 6, 14 // hand-off shaped deadline cases (big Import / RemoveKeys)
 	if r.Thorough() {
 		nseq, nops, ncrash = 300, 60, 400
-		ndl, ndlops = 200, 300
+		ndl, ndlops = 120, 300
+		nho, nhoops = 60, 30
 	}
 	if r.Replay != "" {
 		// a crash is not replayable by construction; sequential lines are re-applied to a fresh real store
 		jobs = append(jobs, func() caseOut { return replayCase(root, r.ReplayLines()) })
-		nseq, ncrash, ndl = 0, 0, 0
+		nseq, ncrash, ndl, nho = 0, 0, 0, 0
 	}
 	for i := 0; i < nseq; i++ {
 		id, seed := i, rng.U64()
@@ -828,7 +835,11 @@ func main() {
 	}
 	for i := 0; i < ndl; i++ {
 		id, seed := i, rng.U64()
-		jobs = append(jobs, func() caseOut { return dlCase(root, id, seed, ndlops) })
+		jobs = append(jobs, func() caseOut { return dlCase(root, id, seed, ndlops, false) })
+	}
+	for i := 0; i < nho; i++ {
+		id, seed := ndl+i, rng.U64()
+		jobs = append(jobs, func() caseOut { return dlCase(root, id, seed, nhoops, true) })
 	}
 	for i := 0; i < ncrash; i++ {
 		id, seed := i, rng.U64()
@@ -854,12 +865,26 @@ func main() {
 				if i >= len(jobs) {
 					return
 				}
+				t0 := time.Now()
 				results[i] = jobs[i]()
+				results[i].wall = time.Since(t0)
 			}
 		}()
 	}
 	wg.Wait()
 	r.Extra["deadline_thresholds_ns"] = tun.export()
+	wallBy := map[string]float64{}
+	for _, c := range results {
+		if len(c.lines) > 0 {
+			if f := strings.Fields(c.lines[0].lhs); len(f) > 2 {
+				wallBy[f[2]] += c.wall.Seconds()
+			}
+		}
+	}
+	r.Extra["case_wall_s_by_kind"] = wallBy
+	for k, v := range profT {
+		fmt.Fprintln(os.Stderr, k, profN[k], v/time.Duration(profN[k]))
+	}
 	for _, c := range results {
 		for _, l := range c.lines {
 			if l.raw {
